@@ -23,6 +23,12 @@ var literalCases = map[string]struct {
 			Input: gen.SeqFromZSON(`{a:[{foo:1}]} {a:[{bar:2}]}`),
 			ZNGs:  []ZNG{{Frame: 1, Threads: 1}, {Frame: 1, Threads: 2, Compress: true}}},
 	},
+	"known-C04-bufferfilter-null-equals-false": {
+		sig: "C04/zng-bufferfilter/null-equals-false-literal", expect: "known",
+		c: Case{Program: "j==false", Lead: "j==false", Meta: prog.Meta{Ordered: true, Deterministic: true},
+			Input: gen.SeqFromZSON(`{j:null(bool),a:1} {j:true,a:1}`),
+			ZNGs:  []ZNG{{Frame: 1, Threads: 1}}},
+	},
 }
 
 func TestWriteKnownReplays(t *testing.T) {
